@@ -41,7 +41,7 @@ var rexpSubst = []map[string]string{
 	{"p": "", "q": "b", "bad": "ab\\"},
 }
 
-var rexpProbes = []string{"", "a", "A", "ab", "a ", "ba", "xx", "xxx", "bx", "abc", "Ab", " a", "5", ":", "z-a", "o"}
+var rexpProbes = []string{"", "a", "A", "ab", "a ", "ba", "xx", "xxx", "bx", "abc", "Ab", " a", "5", ":", "z-a", "o", "AB", "B", "a\nb"}
 
 // fact: what Go's regexp package says, compiled directly from the pattern text (never through validate's cache)
 func rexpFact(pattern, s string) string {
@@ -255,7 +255,9 @@ func driveRexp(args []string) error {
 	fs.Parse(args)
 	pats := []string{"^a", "^A", "a", "a ", "ab", "x{2}", "x{2,}", "(?i)^a", "^ab$", "^ab", "b$", "é", "^.$", "(", "[a-", "a{2,1}", "\\p{Foo}", "*a", "(?P<n>",
 		// invalid patterns next to the valid pattern their syntax error quotes
-		"[0-9a-\\d]+", "\\d", "[[:foo:]]", "[:foo:]", "^[z-a]$", "z-a", "ab\\", ""}
+		"[0-9a-\\d]+", "\\d", "[[:foo:]]", "[:foo:]", "^[z-a]$", "z-a", "ab\\", "",
+		// inline flags: they belong to their own pattern only, whatever other patterns stand next to it in a keyword
+		"(?i)^x", "(?i)zz$", "(?s)^q.q$", "(?U)^z+"}
 	type rec struct {
 		ticket      int
 		g, pid      int
@@ -283,7 +285,7 @@ func driveRexp(args []string) error {
 				for k := 0; k < *n; k++ {
 					pid := gr.Intn(len(pats))
 					s := rexpProbes[gr.Intn(len(rexpProbes))]
-					via := []string{"Pattern", "pattern", "patternProperties"}[gr.Intn(3)]
+					via := []string{"Pattern", "pattern", "patternProperties", "patternPropertiesClosed"}[gr.Intn(4)]
 					res := ""
 					var extra []int
 					switch via {
@@ -293,6 +295,23 @@ func driveRexp(args []string) error {
 						sch := spec.StringProperty()
 						sch.Pattern = pats[pid]
 						if validate.AgainstSchema(sch, s, strfmt.Default) == nil {
+							res = "match"
+						} else {
+							res = "error"
+						}
+					case "patternPropertiesClosed":
+						// additionalProperties: false - a member is allowed exactly when its name matches one of the (valid) patterns
+						sch := &spec.Schema{}
+						sch.PatternProperties = map[string]spec.Schema{pats[pid]: {}}
+						for j := 1 + gr.Intn(2); j > 0; j-- {
+							e := gr.Intn(len(pats))
+							if _, dup := sch.PatternProperties[pats[e]]; !dup {
+								sch.PatternProperties[pats[e]] = spec.Schema{}
+								extra = append(extra, e)
+							}
+						}
+						sch.AdditionalProperties = &spec.SchemaOrBool{Allows: false}
+						if validate.AgainstSchema(sch, map[string]interface{}{s: 1}, strfmt.Default) == nil {
 							res = "match"
 						} else {
 							res = "error"
